@@ -638,7 +638,7 @@ Section Round.
   Theorem xml_roundtrip : forall stream s d,
     wfs s = true -> dflt_ok s = true -> is_leaf s = false -> wfd s d = true -> keys_distinct s d = true ->
     exists x, write_doc nss enum_ids fmt_dec false stream s d = Some x /\ doc_wf x = true /\
-              read_doc nss parse_dec false s x = Ok (norm s d).
+              read_doc nss parse_dec false false s x = Ok (norm s d).
   Proof.
     intros stream s d Hs Hdf Hl Hd Hk.
     pose proof (edit_fresh s Hs Hl d false Hd Hk) as EX.
